@@ -204,7 +204,7 @@ func genGb(r *kit.Rand) []string {
 // ---------------------------------------------------------------------------------------------
 // iso cases
 
-var modelledKinds = []string{"sample", "statecount", "wherecount", "evalcount", "alertgt", "alertmod", "sum", "count"}
+var modelledKinds = []string{"sample", "statecount", "wherecount", "evalcount", "alertgt", "alertmod", "sum", "count", "wherenested", "evalnested"}
 var opaqueKinds []string
 
 func init() {
@@ -248,9 +248,11 @@ func genIso(r *kit.Rand, kind string, big bool) []string {
 	switch kind {
 	case "sample":
 		p1 = r.Range(1, 4)
-	case "wherecount":
+	case "wherecount", "wherenested":
 		p1 = r.Range(2, 4)
 		p2 = r.Intn(p1)
+	case "alertnested":
+		p1 = r.Range(1, 5)
 	case "alertgt":
 		p1 = r.Range(1, 5)
 	case "alertmod":
